@@ -77,8 +77,8 @@ def plan(ctx):
     kinds (`stdL`, `covL`), so a replay does not depend on VERIF_TIER"""
     if ctx.thorough:
         return ([("std", i) for i in range(8000)] + [("stdL", i) for i in range(5000)] + [("cov", i) for i in range(3000)]
-                + [("covL", i) for i in range(1500)] + [("bad", i) for i in range(120)])
-    return ([("std", i) for i in range(260)] + [("cov", i) for i in range(110)] + [("bad", i) for i in range(14)])
+                + [("covL", i) for i in range(1500)] + [("bad", i) for i in range(120)] + [("table", i) for i in range(600)])
+    return ([("std", i) for i in range(260)] + [("cov", i) for i in range(110)] + [("bad", i) for i in range(14)] + [("table", i) for i in range(40)])
 
 
 # ------------------------------------------------------------------------------------------------
@@ -768,6 +768,84 @@ def run_bad(ctx, g, rng):
         ctx.mismatch(rel, g, dict(which=which, n=n), impl, m, "inconsistent shapes -> ValueError, t_ref not a Time -> TypeError")
 
 
+def run_table(ctx, g, rng):
+    """RVData built from a table (`RVData.guess_from_table`): a short CALL HISTORY that hands the same `time_kwargs`
+    dictionary to every call (as a script looping over the tables of several stars does), tables with jd / mjd / bjd /
+    bmjd time columns, with and without units, with missing (masked) entries.  The object must hold exactly the table's
+    complete rows - the same as `RVData(Time(times), rv, err)` built by hand from them."""
+    import astropy.units as u
+    import thejoker as tj
+    from astropy.table import MaskedColumn, Table
+    from astropy.time import Time
+    REL = "RVData.guess_from_table(table)=RVData of the table's complete rows (times, velocities, errors paired)"
+    shared = str(rng.choice(["none", "scale", "empty"]))
+    kw_orig = None if shared == "none" else (dict(scale=str(rng.choice(["tdb", "utc", "tcb"]))) if shared == "scale" else {})
+    kw = None if kw_orig is None else dict(kw_orig)
+    history = []
+    for call in range(int(rng.integers(2, 4))):
+        n = int(rng.integers(3, 9))
+        col = str(rng.choice(["jd", "mjd", "bjd", "bmjd", "JD", "MJD", "BMJD"]))
+        low = col.lower()
+        fmt = "mjd" if "mjd" in low else "jd"
+        mjd = 55000.0 + np.round(rng.uniform(0, 300, n), 3)
+        tvals = mjd + (2400000.5 if fmt == "jd" else 0.0)
+        rv = np.round(rng.normal(0, 20, n), 3)
+        err = np.round(rng.uniform(0.1, 2.0, n), 3)
+        rvname = str(rng.choice(["rv", "vr", "radial_velocity", "vhelio", "RV"]))
+        errname = str(rng.choice(["{}err", "{}_err", "{}_e", "e_{}"])).format(rvname)
+        unit = str(rng.choice(["km/s", "m/s"]))
+        with_units = bool(rng.random() < 0.5)
+        m_rv = np.zeros(n, bool)
+        m_err = np.zeros(n, bool)
+        masked = bool(rng.random() < 0.5)
+        if masked:
+            m_rv[int(rng.integers(0, n))] = True
+            if n > 3:
+                m_err[int(rng.choice([i for i in range(n) if not m_rv[i]]))] = True
+        tbl = Table()
+        tbl[col] = tvals
+        cu = unit if with_units else None
+        tbl[rvname] = MaskedColumn(rv, mask=m_rv, unit=cu) if masked else rv * (u.Unit(unit) if with_units else 1)
+        tbl[errname] = MaskedColumn(err, mask=m_err, unit=cu) if masked else err * (u.Unit(unit) if with_units else 1)
+        scale = (kw_orig or {}).get("scale", "tcb" if low.startswith("b") else "utc")
+        keep = ~(m_rv | m_err)
+        desc = dict(call=call, time_column=col, rv_column=rvname, err_column=errname, unit=unit, units_on_columns=with_units,
+                    time_kwargs_given=kw_orig, same_dict_reused=kw_orig is not None, times=tvals.tolist(), rv=rv.tolist(), rv_err=err.tolist(),
+                    missing_rv=np.flatnonzero(m_rv).tolist(), missing_err=np.flatnonzero(m_err).tolist())
+        history.append(desc)
+        ctx.count("table:call")
+        ctx.count("table:masked" if masked else "table:complete")
+        if call > 0 and kw_orig is not None and history[call - 1]["time_column"].lower().lstrip("b") != low.lstrip("b"):
+            ctx.count("table:format-changes-with-reused-kwargs")
+        ref = tj.RVData(Time(tvals[keep], format=fmt, scale=scale), rv[keep] * u.Unit(unit), err[keep] * u.Unit(unit))
+        try:
+            d = tj.RVData.guess_from_table(tbl, time_kwargs=kw, rv_unit=None if with_units else u.Unit(unit))
+            got = dict(t_bmjd=np.asarray(d._t_bmjd, float).tolist(), rv=np.asarray(d.rv.to_value(unit), float).tolist(),
+                       rv_err=np.asarray(d.rv_err.to_value(unit), float).tolist())
+        except Exception as e_:  # noqa: BLE001
+            got = dict(error=f"{type(e_).__name__}: {str(e_)[:200]}")
+        want = dict(t_bmjd=np.asarray(ref._t_bmjd, float).tolist(), rv=np.asarray(ref.rv.to_value(unit), float).tolist(),
+                    rv_err=np.asarray(ref.rv_err.to_value(unit), float).tolist())
+        ctx.evaluated(REL, (g["index"], call, masked, shared), sample=dict(history=history, got=got) if call == 1 else None)
+        bad = None
+        if "error" in got:
+            bad = "the call raised " + got["error"]
+        elif len(got["t_bmjd"]) != len(want["t_bmjd"]):
+            bad = f"{len(got['t_bmjd'])} observations held, the table has {len(want['t_bmjd'])} complete rows"
+        else:
+            for k_ in ("t_bmjd", "rv", "rv_err"):
+                a_, b_ = np.array(got[k_]), np.array(want[k_])
+                if not np.all(np.abs(a_ - b_) <= 1e-9 * (1 + np.abs(b_))):
+                    bad = f"{k_} differ: max gap {float(np.max(np.abs(a_ - b_))):.6g}"
+                    break
+        if bad:
+            report(ctx, REL, g, dict(history=history), got, want,
+                   "an RVData built from a table must hold exactly the table's complete rows (a missing entry is not an observation; "
+                   "the result must not depend on earlier calls that were handed the same time_kwargs dictionary): " + bad,
+                   dict(what="table", op="masked" if masked and "observations held" in bad else ("history" if call > 0 else "first-call")))
+            return
+
+
 def run_case(ctx, g):
     kind, index = g["kind"], g["index"]
     ctx.seed = g.get("seed", ctx.seed)
@@ -776,6 +854,8 @@ def run_case(ctx, g):
         run_std_or_cov(ctx, g, rng, kind)
     elif kind == "bad":
         run_bad(ctx, g, rng)
+    elif kind == "table":
+        run_table(ctx, g, rng)
 
 
 def post(ctx):
@@ -792,6 +872,8 @@ def post(ctx):
     c = ctx.counters
     q = 1 if not ctx.thorough else 20
     ctx.require("construction cases (1-D errors)", c["init:std"], 200 * q)
+    ctx.require("tables with missing (masked) entries", c["table:masked"], 20 * q)
+    ctx.require("table calls re-using one time_kwargs dict while the time format changes", c["table:format-changes-with-reused-kwargs"], 5 * q)
     ctx.require("construction cases (covariance)", c["init:cov"], 80 * q)
     ctx.require("cases with tied times", c["ties:present"], 80 * q)
     ctx.require("cases where the sort permutation is not the identity", c["perm:non-identity"], 120 * q)
